@@ -12,8 +12,8 @@ PROP = {
             "a vector case is non-trivial when some comparison mask is mixed (neither all-true nor all-false) or an operand lane is NaN, +-0 or +-inf; "
             "distinct = distinct hash of (type, backend, operand bits).",
     "builds": {
-        "quick": [B("stable"), B("nightly", 0.5, False)],
-        "thorough": [B("stable"), B("nightly", 0.5, False)],
+        "quick": [B("stable"), B("fma", 0.25), B("nightly", 0.5, False)],
+        "thorough": [B("stable"), B("fma", 0.5), B("nightly", 0.5, False)],
     },
     "volume": {"quick": 2},
     "technique": "property-based testing: exhaustive truth tables of the five mask types over every construction route (array-of-bools model, route independence, A-type versus plain type), "
